@@ -66,6 +66,8 @@ let rec parse_op (f : string list) : op =
   | "wq" :: rest -> parse_op ("q" :: rest)
   | "aq" :: rest -> parse_op ("q" :: rest)   (* the same query through the untyped string-keyed API *)
   | "insertw" :: rest -> parse_op ("insert" :: rest)
+  | "ainsert" :: rest -> parse_op ("insert" :: rest)   (* AnyTable.Insert / Delete *)
+  | "adelete" :: rest -> parse_op ("delete" :: rest)
   | ["changes"; iid; t] -> OChanges (nn iid, nat t)
   | ["next"; iid; s; tk] -> ONext (nn iid, src s, take tk)
   | ["resume"; iid; tk] -> OResume (nn iid, take tk)
